@@ -87,14 +87,55 @@ def label_coverage(fn, ctor):
         return "never", ""
     idx = [i for i, s in enumerate(blk["stmts"]) if s is stmt][0]
     rest = {"k": "Block", "stmts": blk["stmts"][idx:]}
-    idioms = set()
-    if _must(rest, idioms):
-        if not idioms:
-            return "always", ""
-        return sorted(idioms)[0] if len(idioms) == 1 else "if-file-id+if-meta", ""
     if not any(True for _ in method_calls(rest, "add_primary")):
         return "never", ""
-    return "conditional", "a primary label is attached on some paths only"
+    # every structured path from the construction to the end of its block: either it attaches a primary label, or it
+    # is the path on which the node has no file id / the error has no meta (idioms discharged elsewhere)
+    from pathcond import enumerate_paths
+
+    def labelled(atoms):
+        def rec(n):
+            if isinstance(n, list):
+                return any(rec(x) for x in n)
+            if not isinstance(n, dict):
+                return False
+            k = n.get("k")
+            if k in ("For", "While", "Loop", "Closure", "ItemStmt"):
+                return False  # may run zero times / later
+            if k == "MethodCall" and n["method"] == "add_primary":
+                return True
+            return any(rec(v) for v in n.values() if isinstance(v, (dict, list)))
+
+        return any(rec(a) for a in atoms)
+
+    idioms = set()
+    unlabelled = []
+    for conds, atoms, ex in enumerate_paths(rest):
+        if ex == "panic" or labelled(atoms):
+            continue
+        why = None
+        for f in conds:
+            if f[0] == "iflet" and f[3] and render(f[1]).strip().split("::")[-1] == "None":
+                src = render(strip(f[2]))
+                if re.search(r"file_id", src):
+                    why = "if-file-id"
+                elif re.search(r"self\.meta$", src):
+                    why = "if-meta"
+            if f[0] == "if" and not f[2] and strip(f[1])["k"] == "MethodCall" and strip(f[1])["method"] == "is_some":
+                src = render(strip(strip(f[1])["recv"]))
+                if re.search(r"file_id", src):
+                    why = "if-file-id"
+                elif re.search(r"self\.meta$", src):
+                    why = "if-meta"
+        if why:
+            idioms.add(why)
+        else:
+            unlabelled.append([fact_str(c) for c in conds][:6])
+    if unlabelled:
+        return "conditional", "a primary label is attached on some paths only; without a label: %s" % unlabelled[:3]
+    if not idioms:
+        return "always", ""
+    return (sorted(idioms)[0] if len(idioms) == 1 else "if-file-id+if-meta"), ""
 
 
 def find_in(root, nodes):
